@@ -104,10 +104,14 @@ func (fr *Frame) callStatic(fn *ssa.Function, args []Value, bind []Value, pc *Te
 	if m, ok := stdModels[name]; ok {
 		return m(fr, fn, args, pc, st, pos, resT)
 	}
-	if c := ex.ctx.contractFor(fn); c != nil && fn != ex.root && !c.Inline {
+	unfold := false
+	if rc := ex.ctx.contractFor(ex.root); rc != nil && contains(rc.Unfolds, fn.Name()) {
+		unfold = true
+	}
+	if c := ex.ctx.contractFor(fn); c != nil && fn != ex.root && !c.Inline && !unfold {
 		return fr.contractCall(c, fn, args, pc, st, pos, resT)
 	}
-	if fn.Blocks != nil && ex.ctx.inlinable(fn) && ex.depth < ex.maxInline && !ex.onStack(fn) {
+	if fn.Blocks != nil && (unfold || ex.ctx.inlinable(fn)) && ex.depth < ex.maxInline && !ex.onStack(fn) {
 		ex.depth++
 		ex.stack = append(ex.stack, fn)
 		r := ex.execFunction(fn, args, bind, st, pc, false)
@@ -540,7 +544,7 @@ func (fr *Frame) selectInstr(x *ssa.Select, pc *Term, st *State) Value {
 	ex.assume(pc, And(BVSle(lo, idx), BVSlt(idx, BV(uint64(n), 64))))
 	res := []Value{IntV{idx}, BoolV{Fresh("select.ok", SBool)}}
 	cl := st.get("chclosed", SArr(SRef, SBool))
-	if x.Blocking && contains(ex.curProps, "C12") && fr.isRoot {
+	if x.Blocking && contains(ex.curProps, "C12") && (fr.isRoot || fr.fn == ex.sweepFn) {
 		// shutdown discipline: a goroutine blocked in this select must be woken by
 		// Close, i.e. one arm receives from a close-only channel (quit / ctx.Done)
 		hasQuit := false
@@ -604,9 +608,46 @@ func (ex *Exec) goStmt(fr *Frame, x *ssa.Go, pc *Term, st *State) {
 	} else if mc, ok := x.Call.Value.(*ssa.MakeClosure); ok {
 		name = mc.Fn.Name()
 	}
-	ex.note("go statement: %s spawned; its body is verified separately", name)
 	n := st.get("ghost|go.n", SBV(64))
 	st.set("ghost|go.n", ex.bump(pc, n))
+	mc, isLit := x.Call.Value.(*ssa.MakeClosure)
+	if !isLit || !contains(ex.curProps, "C12") || !fr.isRoot || ex.dry > 0 {
+		ex.note("go statement: %s spawned; its body is verified separately (if it has a contract)", name)
+		return
+	}
+	// a function literal run as a goroutine: its body is swept for the
+	// shutdown discipline (every blocking select has a quit arm, no plain
+	// blocking channel operation without a free buffer slot)
+	fv, ok := fr.val(mc).(FuncV)
+	if !ok {
+		return
+	}
+	var args []Value
+	for _, a := range x.Call.Args {
+		args = append(args, fr.val(a))
+	}
+	ex.note("go statement: body of %s swept for the shutdown discipline (C12)", name)
+	ex.sweep++
+	nAssume := len(ex.assumes)
+	func() {
+		defer func() {
+			if r := recover(); r != nil {
+				ex.note("goroutine sweep of %s incomplete: %v", name, r)
+			}
+		}()
+		sfr := ex.newFrame(fv.Fn)
+		_ = sfr
+		ex.execSweep(fv.Fn, args, fv.Bind, st.clone(), pc)
+	}()
+	_ = nAssume
+	ex.sweep--
+}
+
+// execSweep runs a goroutine body in sweep mode.
+func (ex *Exec) execSweep(fn *ssa.Function, args, bind []Value, st *State, pc *Term) {
+	ex.sweepFn = fn
+	ex.execFunction(fn, args, bind, st, pc, false)
+	ex.sweepFn = nil
 }
 
 // ---------------------------------------------------------------- maps
